@@ -144,7 +144,7 @@ class load_raw_file_and_config:
 TRUSTED = ["config values of the two limits are integers or unset (int(limit) does not raise)",
            "FluffConfig.get is a deterministic function of (config, key) while the guards run"]
 NOT_COVERED = ["ParallelRunner.run's DelayedException branch and Linter.lint_paths' `files_skipped = runner.skipped_file_count` "
-               "(dynamic check only)", "CLI exit tails (C22)"]
+               "(dynamic check only)", "the statements of `lint` / `_paths_fix` before their exit tails (region contracts)"]
 
 
 # ------------------------------------------------------------------ the runner: a skipped file yields nothing and is counted
@@ -191,6 +191,99 @@ class iter_rendered:
 
     def hint_on_raise(self, exc_class):
         return False     # nothing escapes: SQLFluffSkipFile is caught
+
+
+# ------------------------------------------------------------------ the CLI exit tails (region contracts)
+# `lint` and `_paths_fix` are long click command bodies; only their last statements decide the exit code.  pyvc extracts
+# that statement range mechanically from the real function on every run (pyvc.engine.extract_region) and verifies it as a
+# function of the locals it reads.  Dropped by the extraction: every statement before the range; the declared types of the
+# locals are therefore ASSUMPTIONS here (exit_code is an int >= 0, result is the LintingResult of the run).
+LintedDir = ref_class("sqlfluff.core.linter.linted_dir:LintedDir", _num_violations=INT)
+LintingResult = ref_class("sqlfluff.core.linter.linting_result:LintingResult", paths=TList(LintedDir), files_skipped=INT)
+ref_class("sqlfluff.core.linter.linter:Linter", config=FluffConfig)
+from pyvc.ty import TRec  # noqa: E402
+Stats = TRec("StatsDict", {"exit code": INT}, is_dict=True)
+
+
+@spec
+def any_counted_violation(r):
+    """some file has a violation that is neither suppressed nor a warning (LintedDir._num_violations, see C22)"""
+    return any(r.paths[i]._num_violations > 0 for i in range(len(r.paths)))
+
+
+@external("sqlfluff.core.linter.linting_result:LintingResult.stats", PROP)
+class result_stats:
+    """verified under C22 (contracts/c22.py: result_stats), assumed at this call site"""
+    types = {"self": LintingResult, "fail_code": INT, "success_code": INT}
+    ret = Stats
+
+    def ensures(self, fail_code, success_code, result):
+        return result["exit code"] == (fail_code if any_counted_violation(self) else success_code)
+
+
+@external("sqlfluff.core.linter.linting_result:LintingResult.persist_timing_records", PROP)
+class persist_timing_records:
+    """writes a CSV of timings: no effect on the result object"""
+    types = {"self": LintingResult, "filename": Text}
+
+    def ensures(self, filename):
+        return True
+
+
+@external("sys:exit", PROP)
+class sys_exit:
+    types = {"code": INT}
+    params = ["code"]
+    raises = {"SystemExit": None}
+
+    def ensures(code):
+        return False          # never returns
+
+
+@spec
+def skip_fail(result, config):
+    """the property's rule: files were skipped AND large_file_skip_fail is enabled"""
+    return (result.files_skipped != 0 and cfg_int(config, "large_file_skip_fail") is not None
+            and cfg_int(config, "large_file_skip_fail") != 0)
+
+
+@contract("sqlfluff.cli.commands:lint#exit-code", PROP)
+class lint_exit_code:
+    region = ("if not nofail:", None)
+    region_params = ["nofail", "non_human_output", "formatter", "result", "config"]
+    types = {"nofail": BOOL, "non_human_output": BOOL, "formatter": SINK, "result": LintingResult, "config": FluffConfig,
+             "exit_code": INT}
+    raises = {"SystemExit": None}
+
+    def requires(nofail, non_human_output, formatter, result, config):
+        return result.files_skipped >= 0 and all(result.paths[i]._num_violations >= 0 for i in range(len(result.paths)))
+
+    def hint_on_raise(nofail, non_human_output, result, config, exc_class, exc_value):
+        # whatever the output format: skipped files fail the run exactly when large_file_skip_fail is enabled (and
+        # nothing else but a counted violation does)
+        return exc_class == "SystemExit" and exc_value == (
+            0 if nofail else (1 if (any_counted_violation(result) or skip_fail(result, config)) else 0))
+
+    def ensures(nofail, non_human_output, formatter, result, config):
+        return False          # the tail always exits
+
+
+@contract("sqlfluff.cli.commands:_paths_fix#exit-code", PROP)
+class paths_fix_exit_code:
+    # anchored at the statement BEFORE the skip check, so that an edit of the check itself is verified, not `stale`
+    region = ("if persist_timing:", None)
+    region_params = ["result", "linter", "exit_code", "persist_timing"]
+    types = {"result": LintingResult, "linter": Linter, "exit_code": INT, "persist_timing": TOpt(Text)}
+    raises = {"SystemExit": None}
+
+    def requires(result, linter, exit_code, persist_timing):
+        return result.files_skipped >= 0 and 0 <= exit_code <= 1
+
+    def hint_on_raise(result, linter, exit_code, old, exc_class, exc_value):
+        return exc_class == "SystemExit" and exc_value == (1 if skip_fail(result, linter.config) else old.exit_code)
+
+    def ensures(result, linter, exit_code, persist_timing):
+        return False
 
 
 def skip_accounting(tier, seed):
@@ -248,6 +341,8 @@ MUTANTS = [
     ("char_limit_needs_formatter", "sqlfluff/core/templaters/base.py", "        if config:\n            limit = config.get(\"large_file_skip_char_limit\")", "        if config and formatter:\n            limit = config.get(\"large_file_skip_char_limit\")"),
     ("byte_limit_off_by", "sqlfluff/core/linter/linter.py", "            if file_size > limit:", "            if file_size > limit * 2:"),
     ("byte_limit_root_config", "sqlfluff/core/linter/linter.py", '        limit = file_config.get("large_file_skip_byte_limit")', '        limit = root_config.get("large_file_skip_byte_limit")'),
+    ("lint_skip_fail_only_human", "sqlfluff/cli/commands.py", "        if result.files_skipped and config.get(\"large_file_skip_fail\"):\n            exit_code = max(exit_code, EXIT_FAIL)\n        sys.exit(exit_code)", "        if not non_human_output and result.files_skipped and config.get(\"large_file_skip_fail\"):\n            exit_code = max(exit_code, EXIT_FAIL)\n        sys.exit(exit_code)"),
+    ("fix_skip_fail_ignored", "sqlfluff/cli/commands.py", "    if result.files_skipped and linter.config.get(\"large_file_skip_fail\"):\n        exit_code = max(exit_code, EXIT_FAIL)\n\n    sys.exit(exit_code)", "    if result.files_skipped > 1 and linter.config.get(\"large_file_skip_fail\"):\n        exit_code = max(exit_code, EXIT_FAIL)\n\n    sys.exit(exit_code)"),
     ("skip_not_counted", "sqlfluff/core/linter/runner.py", "                linter_logger.warning(str(s))\n                self.skipped_file_count += 1", "                linter_logger.warning(str(s))"),
     ("skip_counted_twice", "sqlfluff/core/linter/runner.py", "                self.skipped_file_count += 1\n\n    def iter_partials", "                self.skipped_file_count += 2\n\n    def iter_partials"),
 ]
